@@ -84,6 +84,20 @@ def configs(tier, seed):
                 out.append(_cfg((3, 2, 2) if n % 2 else (2, 4, 2), [(2, 2, 2), (2, 2, 2)] if n % 3 else [(2, 2, 2)], 1 + n % 2, sd, dd, slay=slay, dlay=dlay,
                                 copy_info=(sd == dd and n % 4 == 0 and slay != "sharded" and dlay != "sharded"), via_main=(n % 6 == 0 and both_plain),
                                 remote=(n % 7 == 0 and slay in ("flat", "flat_gzip", "sharded")), cost=3))
+        # sharding parameters x index / data encodings, on the destination and on the source side
+        for k, (m_, s_, p_) in enumerate(((0, 0, 0), (1, 0, 0), (0, 1, 0), (1, 1, 1), (2, 0, 1), (0, 2, 0))):
+            for j, (ie, de) in enumerate((("raw", "raw"), ("gzip", "gzip"), ("raw", "gzip"), ("gzip", "raw"))):
+                dt = ("uint8", "uint16", "uint32", "uint64")[(k + j) % 4]
+                out.append(_cfg((4, 2, 2), [(2, 2, 2)], 1, "uint8", dt, dlay="sharded", shspec=(m_, s_, p_, ie, de), cost=3))
+                out.append(_cfg((2, 4, 2), [(2, 2, 2), (2, 2, 2)], 1, dt, dt, slay="sharded", dlay=("flat", "gzip")[j % 2], shspec=(m_, s_, p_, ie, de),
+                                remote=bool((k + j) % 3 == 0), cost=3))
+        # every widening pair of unsigned types (raw), and every pair into a compressed_segmentation destination
+        us = ["uint8", "uint16", "uint32", "uint64"]
+        for i, a in enumerate(us):
+            for b in us[i:]:
+                out.append(_cfg((3, 2, 1), [(2, 2, 2)], 1 + i % 2, a, b, slay=("deep", "gzip")[i % 2], dlay=("flat", "deep")[len(b) % 2], cost=2))
+                if b in ("uint32", "uint64"):
+                    out.append(_cfg((2, 2, 1), [(2, 2, 1)], 1, a, b, denc="compressed_segmentation", dblock=[2, 1, 1] if i % 2 else None, cost=8))
     return out
 
 
